@@ -7,7 +7,7 @@
   returned by the literal model (`Shangrla.NM.*`, the functions the driver executes) is shown to be
   `min(1, 1/T_{j+1})` (Kaplan-Markov: `min(1, P_{j+1})`) at every index whose null means are regular,
   together with the boundary clauses (`mu < 0 ⇒ 0`, `mu > u ⇒ 1`, vanishing product `⇒ 1`).
-  `pOf T = if T = 0 then 1 else min 1 (1/T)` is `min(1, 1/T)` with IEEE `1/0 = +inf`.
+  `pOfQ T = if T = 0 then 1 else min 1 (1/T)` is `min(1, 1/T)` with IEEE `1/0 = +inf`.
 -/
 import Shangrla.Props.C11Kaplan
 
@@ -109,7 +109,7 @@ theorem kk_def (cfg : Cfg) (n : Nat) (x : List Rat) (hN : cfg.N = some n) (hx : 
     (hlen : x.length ≤ n) (j : Nat) (hj : j < x.length)
     (hreg : ∀ i ≤ j, 0 < Spec.kkMu n cfg.t (cfg.kw.g.getD 0) x i) :
     ∃ p hist, kaplanKolmogorov cfg x = .ok (p, hist) ∧
-      hist[j]? = some (XR.fin (pOf (Spec.kkT n cfg.t (cfg.kw.g.getD 0) x (j + 1)))) := by
+      hist[j]? = some (XR.fin (pOfQ (Spec.kkT n cfg.t (cfg.kw.g.getD 0) x (j + 1)))) := by
   have hne : x ≠ [] := by intro h; rw [h] at hj; simp at hj
   refine ⟨_, _, kk_eq cfg n x hN hne hx hlen, ?_⟩
   rw [List.getElem?_map, kkMasked_regular cfg n x j hj hreg, Option.map_some, (min_inv_fin _).2.1]
@@ -134,15 +134,15 @@ theorem kk_def_zero (cfg : Cfg) (n : Nat) (x : List Rat) (hN : cfg.N = some n) (
     (hz : Spec.kkT n cfg.t (cfg.kw.g.getD 0) x (j + 1) = 0) :
     ∃ p hist, kaplanKolmogorov cfg x = .ok (p, hist) ∧ hist[j]? = some (XR.fin 1) := by
   obtain ⟨p, hist, he, hh⟩ := kk_def cfg n x hN hx hlen j hj hreg
-  rw [hz, pOf_zero] at hh
+  rw [hz, pOfQ_zero] at hh
   exact ⟨p, hist, he, hh⟩
 
 -- non-vacuity: N = 4, t = 1/2, g = 0, x = [1, 1, 0, 1]: mu = 1/2, 1/3, 0, 0; T_2 = 2·3 = 6, entry 1 is 1/6
 example : ∀ i ≤ 1, 0 < Spec.kkMu 4 (1/2) 0 [1, 1, 0, 1] i := by
   intro i hi
   rcases Nat.le_one_iff_eq_zero_or_eq_one.mp hi with rfl | rfl <;> norm_num [Spec.kkMu]
-example : Spec.kkT 4 (1/2) 0 [1, 1, 0, 1] 2 = 6 ∧ pOf 6 = 1/6 := by
-  norm_num [Spec.kkT, Spec.kkMu, Spec.obs, pOf]
+example : Spec.kkT 4 (1/2) 0 [1, 1, 0, 1] 2 = 6 ∧ pOfQ 6 = 1/6 := by
+  norm_num [Spec.kkT, Spec.kkMu, Spec.obs, pOfQ]
 -- x = [1, 1, 1]: the third null mean is (2 − 2)/2 = 0 and with x = [1,1,1,1] the fourth is negative
 example : Spec.kkMu 4 (1/2) 0 [1, 1, 1, 1] 3 < 0 := by norm_num [Spec.kkMu]
 
@@ -194,7 +194,7 @@ every entry `j` of the history is `min(1, 1/T_{j+1})`, `T` the published product
 theorem kw_def (cfg : Cfg) (x : List Rat) (hx : ∀ a ∈ x, 0 ≤ a) (hg0 : 0 ≤ cfg.kw.g.getD 0)
     (hg1 : cfg.kw.g.getD 0 ≤ 1) (ht : cfg.t ≠ 0) (j : Nat) (hj : j < x.length) :
     ∃ p hist, kaplanWald cfg x = .ok (p, hist) ∧
-      hist[j]? = some (XR.fin (pOf (Spec.kwT cfg.t (cfg.kw.g.getD 0) x (j + 1)))) := by
+      hist[j]? = some (XR.fin (pOfQ (Spec.kwT cfg.t (cfg.kw.g.getD 0) x (j + 1)))) := by
   have hne : x ≠ [] := by intro h; rw [h] at hj; simp at hj
   refine ⟨_, _, kw_eq cfg x hne hx hg0 hg1, ?_⟩
   have hfac : ∀ i ≤ j, (x.map fun a =>
@@ -215,13 +215,13 @@ theorem kw_def_zero (cfg : Cfg) (x : List Rat) (hx : ∀ a ∈ x, 0 ≤ a) (hg0 
     (hz : Spec.kwT cfg.t (cfg.kw.g.getD 0) x (j + 1) = 0) :
     ∃ p hist, kaplanWald cfg x = .ok (p, hist) ∧ hist[j]? = some (XR.fin 1) := by
   obtain ⟨p, hist, he, hh⟩ := kw_def cfg x hx hg0 hg1 ht j hj
-  rw [hz, pOf_zero] at hh
+  rw [hz, pOfQ_zero] at hh
   exact ⟨p, hist, he, hh⟩
 
 -- non-vacuity: t = 1/2, g = 1/10, x = [1, 0, 1/2]: T_1 = 19/10, T_2 = 19/100, T_3 = 19/100
-example : Spec.kwT (1/2) (1/10) [1, 0, 1/2] 1 = 19/10 ∧ pOf (19/10) = 10/19 ∧
-    Spec.kwT (1/2) (1/10) [1, 0, 1/2] 2 = 19/100 ∧ pOf (19/100) = 1 := by
-  norm_num [Spec.kwT, Spec.obs, pOf]
+example : Spec.kwT (1/2) (1/10) [1, 0, 1/2] 1 = 19/10 ∧ pOfQ (19/10) = 10/19 ∧
+    Spec.kwT (1/2) (1/10) [1, 0, 1/2] 2 = 19/100 ∧ pOfQ (19/100) = 1 := by
+  norm_num [Spec.kwT, Spec.obs, pOfQ]
 -- g = 0 and a zero observation: the product vanishes, the entry is 1
 example : Spec.kwT (1/2) 0 [1, 0, 1/2] 2 = 0 := by norm_num [Spec.kwT, Spec.obs]
 
@@ -259,7 +259,7 @@ theorem pAndHist_snd (ro : Bool) (L : List XR) :
 
 theorem npmin_one_div_one : XR.npmin (1 : XR) ((1 : XR) / (1 : XR)) = XR.fin 1 := by
   have h := (min_inv_fin 1).1
-  have h1 : pOf 1 = 1 := by norm_num [pOf]
+  have h1 : pOfQ 1 = 1 := by norm_num [pOfQ]
   rw [h1] at h
   exact h
 
@@ -296,7 +296,7 @@ theorem sprt_def (cfg : Cfg) (x : List Rat) (hx : ∀ a ∈ x, 0 ≤ a ∧ a ≤
     (hbu : ¬ Spec.close cfg.u (Spec.sprtMu cfg.N cfg.t x j) (1 / 1000000) (2 * eps))
     (hbT : ¬ Spec.close 0 (Spec.sprtT cfg.N cfg.u cfg.t (C11.sprtEta cfg) x (j + 1)) (1 / 100000) (2 * eps)) :
     ∃ p hist, waldSprt cfg x = .ok (p, hist) ∧
-      hist[j]? = some (XR.fin (pOf (Spec.sprtT cfg.N cfg.u cfg.t (C11.sprtEta cfg) x (j + 1)))) := by
+      hist[j]? = some (XR.fin (pOfQ (Spec.sprtT cfg.N cfg.u cfg.t (C11.sprtEta cfg) x (j + 1)))) := by
   have hne : x ≠ [] := by intro h; rw [h] at hj; simp at hj
   refine ⟨_, _, sprt_eq cfg x hne hx hro, ?_⟩
   obtain ⟨h0, hu⟩ := hreg j (le_refl j)
@@ -358,8 +358,8 @@ example : ∀ i ≤ 1, 0 < Spec.sprtMu (some 5) (1/2) [1, 0, 1/2, 1] i ∧
     Spec.sprtMu (some 5) (1/2) [1, 0, 1/2, 1] i < 1 := by
   intro i hi
   rcases Nat.le_one_iff_eq_zero_or_eq_one.mp hi with rfl | rfl <;> norm_num [Spec.sprtMu, Spec.S]
-example : Spec.sprtT (some 5) 1 (1/2) (3/4) [1, 0, 1/2, 1] 2 = 3/4 ∧ pOf (3/4) = 1 := by
-  norm_num [Spec.sprtT, Spec.sprtMu, Spec.sprtEta, Spec.S, Spec.obs, pOf]
+example : Spec.sprtT (some 5) 1 (1/2) (3/4) [1, 0, 1/2, 1] 2 = 3/4 ∧ pOfQ (3/4) = 1 := by
+  norm_num [Spec.sprtT, Spec.sprtMu, Spec.sprtEta, Spec.S, Spec.obs, pOfQ]
 example : ¬ Spec.close 0 (Spec.sprtMu (some 5) (1/2) [1, 0, 1/2, 1] 1) (1 / 100000) (2 * eps) := by
   norm_num [Spec.close, Spec.sprtMu, Spec.S, eps, abs_of_nonneg, abs_of_neg]
 example : ¬ Spec.close 1 (Spec.sprtMu (some 5) (1/2) [1, 0, 1/2, 1] 1) (1 / 1000000) (2 * eps) := by
@@ -376,8 +376,8 @@ example : ∃ p hist, kaplanKolmogorov { N := some 4, u := 1, t := 1/2, randomOr
     (by intro a ha; simp at ha; rcases ha with rfl | rfl | rfl <;> norm_num) (by simp) 1 (by simp)
     (by intro i hi
         rcases Nat.le_one_iff_eq_zero_or_eq_one.mp hi with rfl | rfl <;> norm_num [Spec.kkMu])
-  have hT : pOf (Spec.kkT 4 (1/2) (Option.getD (none : Option Rat) 0) [1, 1, 0, 1] (1 + 1)) = 1/6 := by
-    norm_num [Spec.kkT, Spec.kkMu, Spec.obs, pOf]
+  have hT : pOfQ (Spec.kkT 4 (1/2) (Option.getD (none : Option Rat) 0) [1, 1, 0, 1] (1 + 1)) = 1/6 := by
+    norm_num [Spec.kkT, Spec.kkMu, Spec.obs, pOfQ]
   obtain ⟨p, hist, he, hh⟩ := h
   exact ⟨p, hist, he, by rw [hh]; exact congrArg _ (congrArg _ hT)⟩
 
@@ -400,8 +400,8 @@ example : ∃ p hist, kaplanWald { N := none, u := 1, t := 1/2, randomOrder := t
   have h := kw_def { N := none, u := 1, t := 1/2, randomOrder := true, kw := { g := some (1/10) } } [1, 0, 1/2]
     (by intro a ha; simp at ha; rcases ha with rfl | rfl | rfl <;> norm_num) (by simp) (by simp; norm_num)
     (by norm_num) 0 (by simp)
-  have hT : pOf (Spec.kwT (1/2) (Option.getD (some (1/10 : Rat)) 0) [1, 0, 1/2] (0 + 1)) = 10/19 := by
-    norm_num [Spec.kwT, Spec.obs, pOf]
+  have hT : pOfQ (Spec.kwT (1/2) (Option.getD (some (1/10 : Rat)) 0) [1, 0, 1/2] (0 + 1)) = 10/19 := by
+    norm_num [Spec.kwT, Spec.obs, pOfQ]
   obtain ⟨p, hist, he, hh⟩ := h
   exact ⟨p, hist, he, by rw [hh]; exact congrArg _ (congrArg _ hT)⟩
 
@@ -421,8 +421,8 @@ example : ∃ p hist, waldSprt { N := some 5, u := 1, t := 1/2, randomOrder := t
     (by norm_num [Spec.close, Spec.sprtMu, Spec.S, eps, abs_of_nonneg, abs_of_neg])
     (by show ¬ Spec.close 0 (Spec.sprtT (some 5) 1 (1/2) (3/4) [1, 0, 1/2, 1] (0 + 1)) (1 / 100000) (2 * eps)
         rw [hT0]; norm_num [Spec.close, eps, abs_of_nonneg, abs_of_neg])
-  have hT : pOf (Spec.sprtT (some 5) 1 (1/2) (3/4) [1, 0, 1/2, 1] (0 + 1)) = 2/3 := by
-    rw [hT0]; norm_num [pOf]
+  have hT : pOfQ (Spec.sprtT (some 5) 1 (1/2) (3/4) [1, 0, 1/2, 1] (0 + 1)) = 2/3 := by
+    rw [hT0]; norm_num [pOfQ]
   obtain ⟨p, hist, he, hh⟩ := h
   exact ⟨p, hist, he, by rw [hh]; exact congrArg _ (congrArg _ hT)⟩
 
